@@ -1039,6 +1039,66 @@ def _fork_extras(path):
 _PATH_KEYS = ('end', 'ret', 'trace', 'env', 'mem', 'assumed', 'ptrs', 'eval')
 
 
+def inst_results(g):
+    """({id(call node): N}, {loc: N}): the call nodes that are still spelled inside a kept expression (`x = c ? helper(a) : 1`,
+    `return a() && b()`: the helper's body was inlined in the blocks before the join, the expression keeps the call) and the
+    inlined instance N whose result `$retN` they denote -- the one entered at that source location from the same inlining
+    chain.  Nothing is rewritten (order-set analyses evaluate kept comparator calls through their tables); a path evaluator
+    reads the value the instance left on its path."""
+    res = getattr(g, '_c04_instres', None)
+    if res is not None:
+        return res
+    insts, by_chain = {}, {}
+    for e in g.events():
+        if e['ev'] == 'enter' and e.get('loc') and e.get('inst') is not None:
+            insts.setdefault(e['loc'], set()).add(e['inst'])
+            by_chain.setdefault((e['loc'], _chain_key(e)), set()).add(e['inst'])
+    by_id, by_loc = {}, {l: next(iter(v)) for l, v in insts.items() if len(v) == 1}
+
+    def note(x, chain):
+        for n in walk(x):
+            if n.get('k') == 'call' and n.get('callee') and n.get('loc') in insts:
+                cand = insts[n['loc']]
+                if len(cand) != 1 and chain is not None:
+                    cand = by_chain.get((n['loc'], chain), ())
+                if len(cand) == 1:
+                    by_id[id(n)] = next(iter(cand))
+    if insts:
+        for blk in g.blocks.values():
+            c = blk.term.get('cond') if blk.term else None
+            if isinstance(c, dict):
+                chains = {_chain_key(e) for e in blk.events if 'chain' in e}
+                note(c, next(iter(chains)) if len(chains) == 1 else None)
+            for e in blk.events:
+                for k in ('rhs', 'value', 'init', 'args', 'e'):
+                    if isinstance(e.get(k), (dict, list)):
+                        for x in (e[k] if isinstance(e[k], list) else [e[k]]):
+                            if isinstance(x, dict):
+                                note(x, _chain_key(e) if 'chain' in e else None)
+    g._c04_instres = (by_id, by_loc)
+    return g._c04_instres
+
+
+def _with_results(x, res, env, ptrs):
+    """x with every kept call of an inlined helper replaced by the result `$retN` that its instance left on this path (only
+    when that result is known on the path: an integer in env or an address in ptrs)"""
+    by_id, by_loc = res
+    if not (by_id or by_loc) or not isinstance(x, (dict, list)):
+        return x
+
+    def r(n):
+        if n.get('k') == 'call' and n.get('callee'):
+            i = by_id.get(id(n))
+            if i is None:
+                i = by_loc.get(n.get('loc'))
+            if i is not None and ('$ret%d' % i in env or '$ret%d' % i in ptrs):
+                return {'k': 'load', 'e': {'k': 'var', 'name': '$ret%d' % i, 'vk': 'local', 'type': n.get('type', 'int')}}
+        return None
+    if not any(n.get('k') == 'call' and n.get('callee') for n in walk(x)):
+        return x
+    return subst(x, r)
+
+
 def explore(g, orders=None, bools=None, ints=None, on_event=None, start=None, max_paths=3000, max_visits=2, goal_blocks=None, decide=None):
     """All paths of g from its entry under a partial assignment: comparisons of the pairs in `orders`, truth values
     in `bools` and integer values in `ints` (all keyed by canonical expression text computed *from typed operands by
@@ -1052,6 +1112,7 @@ def explore(g, orders=None, bools=None, ints=None, on_event=None, start=None, ma
     orders = dict(orders or {})
     out = []
     useful = None
+    results = inst_results(g)
     if goal_blocks is not None:          # only paths that can still reach a goal block are followed
         preds = g.preds()
         useful, work = set(goal_blocks), list(goal_blocks)
@@ -1073,7 +1134,7 @@ def explore(g, orders=None, bools=None, ints=None, on_event=None, start=None, ma
         path.update(extras)
 
         def ev_(x, truth=False):
-            return interp.evaluate(nonnull_facts(_through(x, path['ptrs']), truth), asg, env)
+            return interp.evaluate(nonnull_facts(_through(_with_results(x, results, env, path['ptrs']), path['ptrs']), truth), asg, env)
         path['eval'] = ev_
         while True:
             visits[b] = visits.get(b, 0) + 1
@@ -1089,7 +1150,11 @@ def explore(g, orders=None, bools=None, ints=None, on_event=None, start=None, ma
                     trace.append(e)
                     if on_event:
                         on_event(e, env, asg, path)
-                    if ev == 'decl':
+                    if ev == 'enter' and e.get('inst') is not None:
+                        # a new execution of the inlined instance: its result of an earlier execution on this path is gone
+                        env.pop('$ret%d' % e['inst'], None)
+                        ptrs.pop('$ret%d' % e['inst'], None)
+                    elif ev == 'decl':
                         env.pop(e['name'], None)
                         ptrs.pop(e['name'], None)
                         if 'init' in e:
@@ -1208,7 +1273,7 @@ def explore(g, orders=None, bools=None, ints=None, on_event=None, start=None, ma
             path.update(extras)
 
             def ev_(x, truth=False, path=path, asg=asg, env=env):
-                return interp.evaluate(nonnull_facts(_through(x, path['ptrs']), truth), asg, env)
+                return interp.evaluate(nonnull_facts(_through(_with_results(x, results, env, path['ptrs']), path['ptrs']), truth), asg, env)
             path['eval'] = ev_
         out.append(path)
     return out
